@@ -248,8 +248,18 @@ func (w *world) logCall(s string) {
 func (w *world) resolver(parent string, f *FieldSpec) func(graphql.FieldContext) (interface{}, error) {
 	t := parseType(f.Type)
 	name := f.Name
+	subRoot := w.orig != nil && w.orig.Subscription != "" && parent == w.orig.Subscription
 	return func(ctx graphql.FieldContext) (interface{}, error) {
 		w.logCall(parent + "." + name)
+		if ctx.IsSubscribe && subRoot {
+			// the subscribe step of a root subscription field: a source stream that delivers two events
+			// and ends; each event is then executed with the event as the root value
+			ch := make(chan *obj, 2)
+			ch <- &obj{typ: "(event)", id: 1}
+			ch <- &obj{typ: "(event)", id: 2}
+			close(ch)
+			return &apifu.SubscriptionSourceStream{EventChannel: ch, Stop: func() {}}, nil
+		}
 		var id uint64
 		switch o := ctx.Object.(type) {
 		case *obj:
